@@ -45,6 +45,20 @@ pub fn main(args: &[String]) -> i32 {
 		*dist.entry(format!("bits{}", if bits < 18 { "16-17" } else if bits < 32 { "18-31" } else { "32-49" })).or_insert(0) += 1;
 		distinct.insert((bits, kp, addr));
 	}
+	// ---- bulk growth (oracle only, one history per 2000 codec cases): the index of a column with more live
+	// entries than one reindex batch moves (8192) grows; afterwards every key must still be there
+	let bulk = std::cmp::max(1, count / 2000);
+	for b in 0..bulk {
+		let dir = std::path::PathBuf::from(&args[2]).join("bulkdb");
+		let _ = std::fs::remove_dir_all(&dir);
+		let verdict = std::panic::catch_unwind(std::panic::AssertUnwindSafe(|| bulk_growth(&dir, &mut rng, &mut dist)));
+		match verdict {
+			Ok(Ok(())) => oracle.push_str("ok\n"),
+			Ok(Err(e)) => oracle.push_str(&format!("FAIL {e} (bulk history {b})\n")),
+			Err(_) => oracle.push_str("FAIL panic in a bulk growth history\n"),
+		}
+		let _ = std::fs::remove_dir_all(&dir);
+	}
 	out.write_file("oracle.txt", &oracle);
 	let d: Vec<String> = dist.iter().map(|(k, v)| format!("{}: {}", crate::util::jstr(k), v)).collect();
 	out.write_file(
@@ -53,4 +67,94 @@ pub fn main(args: &[String]) -> i32 {
 	);
 	out.finish();
 	0
+}
+
+/// 2500-4000 index pages with 2-5 keys each (uniform keys under the zero salt: a key is its own hash, its first
+/// 16 bits are its page), then one page filled beyond its 64 entries: the index grows, the reindex batches run to
+/// the end (a batch moves at most 8192 entries, so a batch boundary falls inside a page), the old index is dropped.
+fn bulk_growth(dir: &std::path::Path, rng: &mut Rng, dist: &mut BTreeMap<String, u64>) -> Result<(), String> {
+	use parity_db::{ColumnOptions, Db, Options};
+	let mut o = Options::with_columns(dir, 1);
+	o.stats = false;
+	o.with_background_thread = false;
+	o.salt = Some([0u8; 32]);
+	o.columns[0] = ColumnOptions { uniform: true, ..Default::default() };
+	let db = Db::open_or_create(&o).map_err(|e| format!("harness-error open {e:?}"))?;
+	let npages = rng.range(2500, 4000) as usize;
+	let first_page = rng.below(60000) as u16;
+	let stride = rng.range(1, 5) as u16;
+	let mut keys: Vec<Vec<u8>> = Vec::new();
+	for p in 0..npages {
+		let page = first_page.wrapping_add((p as u16).wrapping_mul(stride));
+		for _ in 0..rng.range(2, 5) {
+			let mut k = rng.bytes(32);
+			k[0] = (page >> 8) as u8;
+			k[1] = page as u8;
+			keys.push(k);
+		}
+	}
+	let hot = first_page.wrapping_sub(7);
+	for _ in 0..rng.range(65, 70) {
+		let mut k = rng.bytes(32);
+		k[0] = (hot >> 8) as u8;
+		k[1] = hot as u8;
+		keys.push(k);
+	}
+	let val = |i: usize| -> Vec<u8> { (i as u64).to_le_bytes().to_vec() };
+	let drain = |db: &Db| -> Result<(), String> {
+		for _ in 0..4 {
+			db.process_commits().map_err(|e| format!("harness-error process {e:?}"))?;
+		}
+		db.flush_logs().map_err(|e| format!("harness-error flush {e:?}"))?;
+		for _ in 0..8 {
+			db.enact_logs().map_err(|e| format!("harness-error enact {e:?}"))?;
+		}
+		db.clean_logs().map_err(|e| format!("harness-error clean {e:?}"))?;
+		Ok(())
+	};
+	let mut i = 0;
+	while i < keys.len() {
+		let n = std::cmp::min(rng.range(300, 900) as usize, keys.len() - i);
+		db.commit((i..i + n).map(|j| (0u8, keys[j].clone(), Some(val(j))))).map_err(|e| format!("harness-error commit {e:?}"))?;
+		drain(&db)?;
+		i += n;
+	}
+	let generations = |dir: &std::path::Path| -> Vec<String> {
+		let mut v: Vec<String> = std::fs::read_dir(dir).map(|rd| rd.flatten().map(|e| e.file_name().to_string_lossy().to_string()).filter(|n| n.starts_with("index_00_")).collect()).unwrap_or_default();
+		v.sort();
+		v
+	};
+	if generations(dir).len() < 2 {
+		return Err(format!("harness-error the index did not start to grow: {:?}", generations(dir)))
+	}
+	let mut rounds = 0;
+	while generations(dir).len() > 1 {
+		db.process_reindex().map_err(|e| format!("harness-error reindex {e:?}"))?;
+		drain(&db)?;
+		rounds += 1;
+		if rounds > 200 {
+			return Err("growth-never-finished 200 reindex batches did not finish the growth".into())
+		}
+	}
+	*dist.entry("bulk-growth-histories".into()).or_insert(0) += 1;
+	*dist.entry("bulk-growth-keys".into()).or_insert(0) += keys.len() as u64;
+	*dist.entry("bulk-growth-reindex-batches".into()).or_insert(0) += rounds;
+	let check = |db: &Db, when: &str| -> Result<(), String> {
+		let mut lost = 0;
+		let mut first = None;
+		for (j, k) in keys.iter().enumerate() {
+			if db.get(0, k).map_err(|e| format!("harness-error get {e:?}"))? != Some(val(j)) {
+				lost += 1;
+				first.get_or_insert(j);
+			}
+		}
+		if lost > 0 {
+			return Err(format!("stale-or-lost {lost} of {} keys are not returned with their value {when} (first: key {} of page {:02x}{:02x})", keys.len(), first.unwrap(), keys[first.unwrap()][0], keys[first.unwrap()][1]))
+		}
+		Ok(())
+	};
+	check(&db, "after the growth completed")?;
+	drop(db);
+	let db = Db::open(&o).map_err(|e| format!("harness-error reopen {e:?}"))?;
+	check(&db, "after a reopen")
 }
